@@ -6,6 +6,11 @@
    Non-ASCII text: the model is exact on every string of code points - str.lower() (Tag fields, canonicalize_name) is NamesX.lower_full /
    canon_full (the interpreter's full table and the Final_Sigma rule), \w and \d / int() are the generated range tables of Gen/WordTable.v;
    all of them are re-validated against the running interpreter for every code point on every run (law.n.lowertable, law.f.tables).
+   ONE EXCEPTION to "exact": the model has no digit limit (finding D10).  CPython's int() refuses a digit run of more than 4300 digits and the
+   code then raises InvalidWheelFilename (build number) / InvalidVersion (version part), where the model decodes the number.  So wherever
+   this file says "exact", "rejects EXACTLY" (C14_rejects_exactly), a round trip of a build tag (C14_wheel_roundtrip*, C14_build_text_ascii)
+   or "nothing else can happen" (C14_only_documented_errors), the claim about the real code is for digit runs of at most 4300 digits;
+   beyond that the theorems are statements about the model only (harness matcher match_d10_build).
    Domain of the round trips: project names over ASCII letters, digits and -_. (escaped with or without lower-casing); any version text
    without '-' that Version() accepts, in particular str(v); build (number, suffix) with a suffix free of '-' that does not start
    with a digit; non-empty lists of tag parts free of '-' and '.'.  Outside it the encoding is not injective (12 + "3x" = 123 + "x").
@@ -172,6 +177,19 @@ Theorem C14_only_documented_errors fn :
 Proof. split; [apply parse_wheel_total|apply parse_sdist_total]. Qed.
 Print Assumptions C14_only_documented_errors.
 
+(* non-vacuity of C14_wheel_roundtrip_build_text and C14_parse_wheel_upper_tags: hypotheses instantiated (mixed-script build "007" U+0967 + "x",
+   i.e. (71, "x"); a well-formed wheel whose tag parts change under upper-casing) and the conclusions computed *)
+Example C14_text_upper_nonvacuous :
+  let b := Some ([48; 48; 55; 2407], [120]) in
+  let w := {| w_name := [102]; w_ver := [49]; w_build := None; w_py := [112; 121; 51]; w_abi := [110; 233]; w_plat := [97] |} in
+  name_ok [102; 111; 111] /\ build_ok_t b /\ parts_ok [[112; 121; 51]] /\ parts_ok [[110]] /\ parts_ok [[97]; [98]] /\ wf_wheel w /\ wf_wheel (upper_tags w)
+  /\ encode (upper_tags w) <> encode w /\ text_upper_check = true.
+Proof.
+  cbv zeta. split; [split; vm_compute; reflexivity|]. split; [repeat split; try discriminate; vm_compute; reflexivity|].
+  split; [split; [discriminate|repeat constructor]|]. split; [split; [discriminate|repeat constructor]|]. split; [split; [discriminate|repeat constructor]|].
+  split; [repeat split; vm_compute; reflexivity|]. split; [repeat split; vm_compute; reflexivity|]. split; [vm_compute; discriminate|exact text_upper_ok].
+Qed.
+
 (* non-vacuity: "Foo.Bar" 1!2.0rc1+ab.5 build (7,"x") py2.py3-none-any  ->  foo_bar-1!2.0rc1+ab.5-7x-py2.py3-none-any.whl  and back *)
 Example C14_nonvacuous :
   let v := {| epoch := 1; release := [2; 0]; pre := Some (w_rc, 1); post := None; dev := None; local := Some [inr [97; 98]; inl 5] |} in
@@ -182,10 +200,10 @@ Example C14_nonvacuous :
                            [mk_tag [112;121;50] [110;111;110;101] [97;110;121]; mk_tag [112;121;51] [110;111;110;101] [97;110;121]])
   /\ VMeaning.wf_version v /\ build_ok (Some (7, [120])) /\ parts_ok [[112; 121; 50]; [80; 89; 51]]
   /\ parse_wheel [102;111;111;32;45;49;45;97;45;98;45;99;46;119;104;108] = FErr
-  /\ unescaped_accepted_check = true /\ build_text_check = true /\ tag_str_check = true /\ lower_full_check = true.
+  /\ unescaped_accepted_check = true /\ build_text_check = true /\ tag_str_check = true /\ lower_full_check = true /\ text_upper_check = true.
 Proof.
   cbv zeta. split; [vm_compute; reflexivity|]. split; [vm_compute; reflexivity|]. split.
   - repeat split; try discriminate; cbn; auto.
   - split; [repeat split|]. split; [split; [discriminate|repeat constructor]|]. split; [vm_compute; reflexivity|].
-    split; [exact unescaped_accepted_ok|]. split; [exact build_text_ok|]. split; [exact tag_str_check_ok|exact lower_full_check_ok].
+    split; [exact unescaped_accepted_ok|]. split; [exact build_text_ok|]. split; [exact tag_str_check_ok|]. split; [exact lower_full_check_ok|exact text_upper_ok].
 Qed.
